@@ -98,12 +98,16 @@ def keyless_tuple_sorts(ck, rule):
     n = 0
     for f in cls.methods.values():
         tuple_lists = set()
+        wide_lists = set()
         for x in ast.walk(f.node):
             if isinstance(x, ast.Call) and isinstance(x.func, ast.Attribute) and x.func.attr == "append" and isinstance(x.func.value, ast.Name) \
-                    and x.args and isinstance(x.args[0], ast.Tuple) and len(x.args[0].elts) >= 2:
+                    and x.args and isinstance(x.args[0], ast.Tuple) and len(x.args[0].elts) == 2:
                 tuple_lists.add(x.func.value.id)
+            elif isinstance(x, ast.Call) and isinstance(x.func, ast.Attribute) and x.func.attr == "append" and isinstance(x.func.value, ast.Name) \
+                    and x.args and isinstance(x.args[0], ast.Tuple) and len(x.args[0].elts) > 2:
+                wide_lists.add(x.func.value.id)        # (key, tie-breaker, segment): whether the tie-breaker is unique is not decided here
             if isinstance(x, ast.Assign) and len(x.targets) == 1 and isinstance(x.targets[0], ast.Name) and \
-                    isinstance(x.value, (ast.ListComp, ast.GeneratorExp)) and isinstance(x.value.elt, ast.Tuple) and len(x.value.elt.elts) >= 2:
+                    isinstance(x.value, (ast.ListComp, ast.GeneratorExp)) and isinstance(x.value.elt, ast.Tuple) and len(x.value.elt.elts) == 2:
                 tuple_lists.add(x.targets[0].id)
         for x in ast.walk(f.node):
             is_sorted = isinstance(x, ast.Call) and isinstance(x.func, ast.Name) and x.func.id == "sorted" and x.args
@@ -114,8 +118,10 @@ def keyless_tuple_sorts(ck, rule):
             if any(k.arg == "key" for k in x.keywords):
                 continue
             subject = x.args[0] if is_sorted else x.func.value
+            if isinstance(subject, ast.Name) and subject.id in wide_lists:
+                raise AnalysisError(f"{where(f, x)}: a keyless sort of tuples with a tie-breaking component is not judged by this rule")
             tuples = (isinstance(subject, ast.Name) and subject.id in tuple_lists) or (
-                isinstance(subject, (ast.ListComp, ast.GeneratorExp)) and isinstance(subject.elt, ast.Tuple) and len(subject.elt.elts) >= 2) or (
+                isinstance(subject, (ast.ListComp, ast.GeneratorExp)) and isinstance(subject.elt, ast.Tuple) and len(subject.elt.elts) == 2) or (
                 isinstance(subject, ast.Call) and isinstance(subject.func, ast.Name) and subject.func.id == "zip")
             if tuples and not ordered:
                 ck.violation(rule, f"{short(f)}:keyless-sort", where(f, x),
